@@ -10,7 +10,7 @@ use mahf::components::evaluation::PopulationEvaluator;
 use mahf::identifier::{Global, A};
 use mahf::problems::{Evaluate, ObjectiveFunction, Parallel, Sequential};
 use mahf::state::common::Evaluations;
-use mahf::{Component, Configuration, Individual, State};
+use mahf::{Component, Configuration, ExecResult, Individual, State};
 use serde_json::{json, Value};
 use std::sync::atomic::{AtomicU32, Ordering};
 use std::sync::Arc;
@@ -19,6 +19,20 @@ use std::sync::Arc;
 pub static DEGRADED: std::sync::atomic::AtomicU64 = std::sync::atomic::AtomicU64::new(0);
 
 /// A user-defined evaluator: evaluates back to front.
+pub struct Repairing;
+impl Evaluate for Repairing {
+    type Problem = RealP;
+    fn evaluate(&mut self, problem: &RealP, _state: &mut State<RealP>, individuals: &mut [Individual<RealP>]) {
+        for i in individuals.iter_mut() {
+            for x in i.solution_mut().iter_mut() {
+                if *x < 0.0 || (*x == 0.0 && x.is_sign_negative()) {
+                    *x = -*x;
+                }
+            }
+            i.evaluate_with(|s| mahf::problems::ObjectiveFunction::objective(problem, s));
+        }
+    }
+}
 pub struct Backwards;
 impl Evaluate for Backwards {
     type Problem = RealP;
@@ -31,6 +45,8 @@ impl Evaluate for Backwards {
 
 #[derive(Clone, Debug, PartialEq)]
 pub enum Ev {
+    /// user evaluator that first repairs the solution (negates negative coordinates), then assigns f of the repaired one
+    Repairing,
     Sequential,
     /// pool size, completion order (None = free running)
     Parallel(usize, Option<Vec<usize>>),
@@ -56,6 +72,19 @@ pub fn run_case(c: &Case) -> Result<(), (String, String)> {
     let instr = Instr::gated(gate.clone());
     let problem = RealP::new(2, -10.0, 10.0, FKind::ZeroSign, instr.clone());
     let n = c.pop.as_ref().map(|m| m.len()).unwrap_or(0);
+    // what the individual's solution is after the step: a repairing evaluator turns negative zeros into zeros
+    let repairing = matches!(c.ev, Ev::Repairing);
+    let esol = move |i: usize| -> Vec<f64> {
+        let mut v = sol(i);
+        if repairing {
+            for x in v.iter_mut() {
+                if *x < 0.0 || (*x == 0.0 && x.is_sign_negative()) {
+                    *x = -*x;
+                }
+            }
+        }
+        v
+    };
     let below: Vec<Individual<RealP>> = vec![Individual::new(vec![9.0, 9.0], so(1234.0))];
     let mut pops = vec![below.clone()];
     if let Some(mask) = &c.pop {
@@ -78,6 +107,7 @@ pub fn run_case(c: &Case) -> Result<(), (String, String)> {
         Ev::Sequential => insert_ev!(Sequential::<RealP>::new()),
         Ev::Parallel(..) => insert_ev!(Parallel::<RealP>::new()),
         Ev::Backwards => insert_ev!(Backwards),
+        Ev::Repairing => insert_ev!(Repairing),
     }
     let comp: Box<dyn Component<RealP>> = if c.id_a { PopulationEvaluator::<A>::new_with() } else { PopulationEvaluator::new() };
     let head = format!(
@@ -86,6 +116,7 @@ pub fn run_case(c: &Case) -> Result<(), (String, String)> {
             Ev::Sequential => "Sequential".to_string(),
             Ev::Parallel(k, o) => format!("Parallel {}", if o.is_some() { "gated-order" } else if *k >= n.max(1) { "free" } else { "free-small-pool" }),
             Ev::Backwards => "custom".to_string(),
+            Ev::Repairing => "custom-repairing".to_string(),
         },
         match &c.pop {
             None => "no-population",
@@ -160,14 +191,14 @@ pub fn run_case(c: &Case) -> Result<(), (String, String)> {
             return Err((format!("{} population-size", head), ctx(format!("{} individuals afterwards", cur.len()))));
         }
         for (i, ind) in cur.iter().enumerate() {
-            if fkey(ind.solution()) != fkey(&sol(i)) {
-                return Err((format!("{} order-or-solution-changed", head), ctx(format!("individual {} has solution {:?}", i, ind.solution()))));
+            if fkey(ind.solution()) != fkey(&esol(i)) {
+                return Err((format!("{} order-or-solution-changed", head), ctx(format!("individual {} has solution {:?}, expected {:?}", i, ind.solution(), esol(i)))));
             }
             match ind.get_objective() {
                 None => return Err((format!("{} left-unevaluated", head), ctx(format!("individual {} is not evaluated", i)))),
                 Some(o) => {
-                    if o.value() != problem.f(&sol(i)) {
-                        return Err((format!("{} wrong-objective", head), ctx(format!("individual {} carries {} but f(solution) = {}", i, o.value(), problem.f(&sol(i))))));
+                    if o.value() != problem.f(&esol(i)) {
+                        return Err((format!("{} wrong-objective", head), ctx(format!("individual {} carries {} but f(solution) = {}", i, o.value(), problem.f(&esol(i))))));
                     }
                 }
             }
@@ -176,9 +207,10 @@ pub fn run_case(c: &Case) -> Result<(), (String, String)> {
     // every solution passed to the objective function exactly once
     let log = instr.per_solution.lock().unwrap().clone();
     for i in 0..n {
-        let k = fkey(&sol(i));
+        let k = fkey(&esol(i));
         let cnt = log.iter().filter(|(s, _)| *s == k).count();
-        if cnt != 1 {
+        let want = (0..n).filter(|j| fkey(&esol(*j)) == k).count();
+        if cnt != want {
             return Err((format!("{} calls-per-individual", head), ctx(format!("the objective function was called {} times for individual {}", cnt, i))));
         }
     }
@@ -333,11 +365,72 @@ fn check_rerun_on_same_state(runs: usize, pop: u32, passes: u32) -> Option<(Stri
     None
 }
 
+/// user evaluator that reports f + 100
+pub struct Plus100;
+impl Evaluate for Plus100 {
+    type Problem = RealP;
+    fn evaluate(&mut self, problem: &RealP, _state: &mut State<RealP>, individuals: &mut [Individual<RealP>]) {
+        for i in individuals.iter_mut() {
+            i.evaluate_with(|s| crate::subject::problems::so(problem.f(s) + 100.0));
+        }
+    }
+}
+fn scope_registers_other_evaluator(st: &mut State<RealP>) -> ExecResult<()> {
+    st.insert_evaluator(Plus100);
+    Ok(())
+}
+fn scope_registers_other_evaluator_a(st: &mut State<RealP>) -> ExecResult<()> {
+    st.insert_evaluator_as::<A>(Plus100);
+    Ok(())
+}
+fn keep_nothing(_outer: &mut State<RealP>, _inner: State<RealP>) -> ExecResult<()> {
+    Ok(())
+}
+
+/// A scope that registers an evaluator of its own under the same identifier shadows the outer one for its
+/// body only: evaluation steps of the surrounding configuration after the scope use the outer evaluator.
+fn check_scoped_evaluator(id_a: bool, passes: u32) -> Option<(String, String)> {
+    use mahf::components::control_flow::Scope;
+    use mahf::conditions::LessThanN;
+    let problem = RealP::new(1, -1.0, 1.0, FKind::Sphere, Instr::new());
+    let ev = move |b: mahf::configuration::ConfigurationBuilder<RealP>| if id_a { b.evaluate_with::<A>() } else { b.evaluate_with::<Global>() };
+    let inner = ev(Configuration::<RealP>::builder()).build_component();
+    let scope = Scope::new_with(if id_a { scope_registers_other_evaluator_a } else { scope_registers_other_evaluator }, inner, keep_nothing);
+    let config = ev(Configuration::<RealP>::builder().do_(mahf::components::initialization::RandomSpread::new(3))).while_(LessThanN::iterations(passes), move |b| ev(b.do_(scope.clone()))).build();
+    let r = catch(|| {
+        config.optimize_with(&problem, |st| {
+            st.insert(mahf::Random::new(5));
+            if id_a {
+                st.insert_evaluator_as::<A>(Sequential::<RealP>::new());
+            } else {
+                st.insert_evaluator(Sequential::<RealP>::new());
+            }
+            Ok(())
+        })
+    });
+    let head = "C06 scope-with-own-evaluator";
+    let ctx = |w: String| format!("[evaluate; {} x (scope registering an evaluator that reports f+100 {{ evaluate }}; evaluate)] under identifier {}: {}", passes, if id_a { "A" } else { "Global" }, w);
+    match r {
+        Err(p) => Some((format!("{} panic", head), ctx(format!("panicked: {}", p)))),
+        Ok(Err(e)) => Some((format!("{} error", head), ctx(format!("{:#}", e)))),
+        Ok(Ok(st)) => {
+            let pops = st.populations();
+            for i in pops.current() {
+                let f = problem.f(i.solution());
+                if i.get_objective().map(|o| o.value()) != Some(f) {
+                    return Some((format!("{} outer-step-used-inner-evaluator", head), ctx(format!("after the run an individual carries {:?}, the outer evaluator assigns {}", i.get_objective().map(|o| o.value()), f))));
+                }
+            }
+            None
+        }
+    }
+}
+
 pub fn cases(thorough: bool) -> Vec<Case> {
     let nmax = if thorough { 4 } else { 3 };
     let mut out = vec![];
     for id_a in [false, true] {
-        for ev in [Ev::Sequential, Ev::Backwards] {
+        for ev in [Ev::Sequential, Ev::Backwards, Ev::Repairing] {
             out.push(Case { pop: None, ev: ev.clone(), id_a });
             for n in 0..=nmax {
                 for mask in 0..(1u32 << n) {
@@ -345,6 +438,11 @@ pub fn cases(thorough: bool) -> Vec<Case> {
                 }
             }
         }
+    }
+    // populations of dozens of individuals on pools with fewer and with (many) more threads than individuals
+    for (n, k) in [(40usize, 64usize), (33, 48), (40, 3), (64, 7)] {
+        out.push(Case { pop: Some(vec![false; n]), ev: Ev::Parallel(k, None), id_a: false });
+        out.push(Case { pop: Some((0..n).map(|i| i % 3 == 0).collect()), ev: Ev::Parallel(k, None), id_a: true });
     }
     // parallel: all completion orders for N <= pool size, masks all-unevaluated and alternating
     for n in 0..=nmax {
@@ -433,6 +531,17 @@ pub fn run_part_a(rep: &mut Report) {
             }
         }
     }
+    for id_a in [false, true] {
+        for passes in [0u32, 1, 2] {
+            p.transitions += (2 * passes + 1) as u64;
+            p.traces += 1;
+            p.states += 1;
+            p.outcome("scoped-evaluator");
+            if let Some((s, d)) = check_scoped_evaluator(id_a, passes) {
+                p.violate(s, d, json!({"kind": "scoped-evaluator", "id_a": id_a, "passes": passes}));
+            }
+        }
+    }
     for runs in 1..=3usize {
         for (pop, passes) in [(2u32, 1u32), (3, 2), (1, 0)] {
             p.transitions += runs as u64;
@@ -461,7 +570,7 @@ pub fn run_budget(rep: &mut Report) {
     use std::sync::Mutex;
     let mut p = Part::new("evaluation-budget.overshoot");
     let seed = rep.seed;
-    for b in [1u32, 5, 6, 9, 12] {
+    for b in [1u32, 5, 6, 9, 12, 49, 98, 103] {
         for which in 0..2 {
             let log = Arc::new(Mutex::new(vec![]));
             let l2 = log.clone();
@@ -519,6 +628,7 @@ pub fn replay_a(case: &Value) -> Result<Vec<(String, String)>, String> {
             Ok(r.violations().into_iter().map(|v| (v.sig.clone(), v.detail.clone())).collect())
         }
         "deep" => Ok(check_deep_evaluator(case["depth"].as_u64().unwrap_or(0) as usize, case["passes"].as_u64().unwrap_or(1) as u32, case["id_a"].as_bool().unwrap_or(false)).into_iter().collect()),
+        "scoped-evaluator" => Ok(check_scoped_evaluator(case["id_a"].as_bool().unwrap_or(false), case["passes"].as_u64().unwrap_or(1) as u32).into_iter().collect()),
         "rerun" => Ok(check_rerun_on_same_state(case["runs"].as_u64().unwrap_or(1) as usize, case["pop"].as_u64().unwrap_or(1) as u32, case["passes"].as_u64().unwrap_or(1) as u32).into_iter().collect()),
         "missing" => Ok(check_missing_evaluator(case["want_a"].as_bool().unwrap_or(false), case["place"].as_u64().unwrap_or(0) as usize, case["entry"].as_u64().unwrap_or(0) as usize).into_iter().collect()),
         "evalstep" => {
